@@ -404,7 +404,9 @@ func (b *slowRtCircuitBreaker) OnRequestComplete(rt uint64, _ error) {
 		return
 	}
 
-	if slowRatio > b.maxSlowRequestRatio || util.Float64Equals(slowRatio, b.maxSlowRequestRatio) {
+	// (the ratio is a correctly rounded quotient of two counts: it equals a threshold of the same value
+	// exactly, a tolerance only makes the breaker open below its threshold)
+	if slowRatio >= b.maxSlowRequestRatio {
 		curStatus = b.CurrentState()
 		switch curStatus {
 		case Closed:
@@ -594,7 +596,7 @@ func (b *errorRatioCircuitBreaker) OnRequestComplete(_ uint64, err error) {
 	if totalCount < b.minRequestAmount {
 		return
 	}
-	if errorRatio > b.errorRatioThreshold || util.Float64Equals(errorRatio, b.errorRatioThreshold) {
+	if errorRatio >= b.errorRatioThreshold {
 		curStatus = b.CurrentState()
 		switch curStatus {
 		case Closed:
